@@ -146,7 +146,7 @@ func c19Generate(c *mon.Ctx) {
 		var mvs []mon.ScalarMove
 
 		for _, via := range mon.ScalarVias {
-			if mv := mon.PlanScalarMove(via, hr); mon.BigH(mv.To).Cmp(big.NewInt(1)) != 0 {
+			if mv := mon.PlanScalarMove(via, hr); mv.To != mon.Havoc && mon.BigH(mv.To).Cmp(big.NewInt(1)) != 0 {
 				mvs = append(mvs, mv)
 			}
 		}
@@ -269,9 +269,11 @@ func c19Run(c *mon.Ctx, csAny any) {
 	for _, mv := range cs.Moves {
 		mv := mv
 		list = append(list, traced{mv.To, " reached through " + mv.Via, func() *secp256k1.Scalar {
-			s := mon.Scal(mon.BigH(mv.From))
-			s.Bits()
-			mon.ApplyScalarMove(s, mv)
+			s, _, pan, pv := mon.MoveScalar(mv, func(s *secp256k1.Scalar) { s.Bits() })
+			if pan {
+				panic(fmt.Sprint("harness: scalar mutator ", mv.Via, " panicked: ", pv))
+			}
+
 			c.Count("k:moved")
 
 			return s
